@@ -19,7 +19,9 @@ Proof.
     try (destruct e; try discriminate H; repeat match type of H with context [match ?x with _ => _ end] =>
            lazymatch x with context [match _ with _ => _ end] => fail | _ => destruct x eqn:? end end;
          try discriminate H; beq; subst; cbn; auto; fail).
-  - destruct e; try discriminate H. destruct c; try discriminate H. apply in_n1_cands. destruct (do_n1 CJ w s); congruence.
+  - destruct e; try discriminate H; destruct c; try discriminate H.
+    + right. apply in_n1_cands. destruct (do_n1 CJ w s); congruence.
+    + now left.
   - destruct e; try discriminate H; destruct c; try discriminate H.
     + right. apply in_n1_cands. destruct fx; [discriminate|]. destruct (do_n1 CF w s); congruence.
     + now left.
